@@ -138,7 +138,8 @@ STRINGS = [
     "NaN",
 ]
 INTS = [0, 1, -1, 42, 2**31, -(2**31) - 1, 2**63, 2**70 + 1, -(10**30)]
-FLOATS = [0.0, 1.0, -1.5, 0.1, 1e100, 2.0**70, 1e-7, 3.141592653589793, -0.0, float("inf"), float("-inf")]
+# finite only: C01's quantifier says "finite floats" (a writer refusing Infinity would be within its rights)
+FLOATS = [0.0, 1.0, -1.5, 0.1, 1e100, 2.0**70, 1e-7, 3.141592653589793, -0.0]
 DATETIMES = [
     "2012-12-03T21:08:16",
     "2012-12-03T21:08:16.686000",
